@@ -192,7 +192,7 @@ pub fn run(tier: Tier, rep: &mut Report) -> (String, String) {
     let fams: Vec<(&[u8], usize, usize)> = match tier {
         Tier::Quick => vec![(b"ab", 8, 5), (b"abc", 5, 4), (&[0x61, 0xC3, 0xB1, 0xFF], 4, 3)],
         Tier::Thorough => vec![(b"ab", 11, 6), (b"abc", 7, 5), (&[0x61, 0xC3, 0xB1, 0xFF], 6, 4)],
-        Tier::Miri => vec![(b"ab", 4, 3), (&[0x61, 0xC3, 0xB1], 3, 2)],
+        Tier::Miri => vec![(b"ab", 3, 2), (&[0x61, 0xC3, 0xB1], 2, 2)],
     };
     let mut bounds = String::new();
     for (alpha, hl, nl) in &fams {
@@ -208,7 +208,7 @@ pub fn run(tier: Tier, rep: &mut Report) -> (String, String) {
         rep.merge(r);
     }
     // multi-byte strings (str and char patterns)
-    let (sl, nl) = tier.pick((5, 3), (7, 4), (3, 2));
+    let (sl, nl) = tier.pick((5, 3), (7, 4), (2, 1));
     let hs = strings_over(&["a", "ñ", "€"], sl);
     let ns = strings_over(&["a", "ñ", "€"], nl);
     bounds += &format!("strings over [a,ñ,€]: haystacks <= {sl} atoms ({}), needles <= {nl} atoms ({}); ", hs.len(), ns.len());
